@@ -1,9 +1,12 @@
 """C19 - suite utilities preserve the test set (testsuite.py, run.py)."""
+import io
 import itertools
+import json
 import os
 import subprocess
 import sys
 import tempfile
+import types
 import unittest
 
 from .. import coqio as q
@@ -25,19 +28,89 @@ MANIFEST = {
 }
 RULE = ("suite trees over Case/Plain/Custom(sort?,filter?) with ids from a small pool: exhaustive for small "
         "shapes, random to depth 4 / fan-out 4; each with a keep-set (incl. absent ids) and unpack_outer flag; "
+        "test ids are drawn from alphabets with spaces, tabs, parentheses, brackets, dots, non-ASCII text and ids "
+        "that are first tokens / prefixes of other ids; each case has a --load-list file (listed, absent and "
+        "two-ids-on-a-line lines, blank lines, surrounding blanks, LF/CRLF, with/without final newline) that goes "
+        "through testtools.run --list / --load-list / both, in-process for every case and in a subprocess for a sample; "
         "non-trivial = at least one custom or nested suite and at least two leaves; distinct = distinct JSON")
 TRUSTED = ["unittest.TestSuite iteration and __eq__, PlaceHolder/TestCase.id() are used as they are (not modelled "
            "beyond 'iteration yields the members in order')"]
-ASSUMPTIONS = ["test ids are mapped to numbers by zero-padded names so that string order equals numeric order",
+ASSUMPTIONS = ["test ids are mapped to numbers through a per-case table of names sorted by code point, so that string "
+               "order equals numeric order; names are non-empty, contain no line feed and have no ASCII whitespace at "
+               "either end (such an id cannot be written on a line of a list file); list files are valid UTF-8",
                "custom suites' own sort_tests/filter_by_ids follow the documented protocol (FixtureSuite's sort_tests; "
                "a filter_by_ids that rebuilds the suite from the filtered members)"]
 EXPLANATION = ("Theorems in coq/Props/C19.v over all suite trees; correspondence: iterate_tests, filter_by_ids, "
-               "sorted_tests, list_test of the working tree against coq/Model/Suites.v on generated trees, plus "
-               "python -m testtools.run --list/--load-list samples.")
+               "sorted_tests, list_test and testtools.run.main --list/--load-list (with a generated list file) of the "
+               "working tree against coq/Model/Suites.v on generated trees, a sample of them through "
+               "python -m testtools.run in a subprocess, plus --list | --load-list round trips.")
 
 
-def name(i):
-    return "t%03d" % i
+PLAIN = ["t%03d" % i for i in range(13)]
+# id alphabets: testscenarios-like ids, ids that are the first token / a fragment / a prefix of another id,
+# blanks and tabs inside, brackets, quotes, non-ASCII (NFC and NFD spellings, no-break space, CJK, astral)
+POOLS = {
+    "scenario": ["m.C.test_io", "m.C.test_io (fast disk)", "m.C.test_io (slow disk)", "(slow", "(fast", "disk)",
+                 "m.C.test_io(fast", "m.C.test_net", "m.C.test_net(ipv6 only)", "m.C.test_net(ipv6", "only)",
+                 "m.D.test_a", "m.D.test_a[0]", "m.D.test_a[0 1]", "m.D.test_a [x, y]", "[x,", "y]", "m.D.test_b\tq",
+                 "m.D.test_b", "q", "m.C.test_io (fast disk) (again)", "(again)", "m.C.test_io  (fast disk)"],
+    "short": ["a", "b", "c", "a b", "a  b", "a b c", "b c", "a\tb", "a.b", "a (b)", "(b)", "a[b]", "a:b", "a,b",
+              '"a b"', '"a', 'b"', "'a'", "a-b", "a/b", "a\\b", "#a", "a #b", "b a", "a b.c", "a."],
+    "unicode": ["m.\u00c9.t\u00e9st", "m.E\u0301.te\u0301st", "m.C.t\u00a0x", "m.C.t", "x", "m.C.t\u00a0(y)",
+                "\u65e5\u672c\u8a9e.\u30c6\u30b9\u30c8", "\u65e5\u672c\u8a9e.\u30c6\u30b9\u30c8 (\u305d\u306e 1)",
+                "(\u305d\u306e", "1)", "t\U0001f4a5", "t\U0001f4a5 x", "na\u00efve caf\u00e9", "na\u00efve", "caf\u00e9",
+                "a\u2003b", "a\u3000b", "\u00e9", "e\u0301", "\u0394 \u03b4", "\u0394"],
+}
+POOLS["mixed"] = sorted(set(POOLS["scenario"] + POOLS["short"] + POOLS["unicode"]))
+WS = " \t\n\r\x0b\x0c"
+
+
+def name_ok(n):
+    return bool(n) and "\n" not in n and n[0] not in WS and n[-1] not in WS
+
+
+def pick_names(rng):
+    """13 names in code-point order (test number i has id names[i])"""
+    k = rng.random()
+    if k < 0.2:
+        return list(PLAIN)
+    pool = POOLS["scenario" if k < 0.45 else "short" if k < 0.65 else "unicode" if k < 0.8 else "mixed"]
+    return sorted(rng.sample(pool, 13))
+
+
+def make_file(rng, names, ls):
+    """text of a --load-list file for a suite whose leaves are numbered ls"""
+    present = sorted(set(ls))
+    p = rng.choice([0.0, 0.3, 0.5, 0.5, 0.8, 1.0])
+    lines = [names[i] for i in present if rng.random() < p]
+    for i in range(len(names)):
+        if i not in present and rng.random() < 0.12:
+            lines.append(names[i])                                  # an id that is not in the suite
+    if len(present) >= 2 and rng.random() < 0.35:                   # two ids on one line: lists neither
+        a, b = rng.sample(present, 2)
+        lines.append(names[a] + rng.choice([" ", "\t", "  ", " , "]) + names[b])
+    if lines and rng.random() < 0.3:                                # a fragment of a listed line
+        toks = rng.choice(lines).split()
+        lines.append(rng.choice(toks))
+    if present and rng.random() < 0.2:                              # a proper prefix / extension of an id
+        n = names[rng.choice(present)]
+        lines.append(n[:max(1, len(n) // 2)].rstrip(WS) or n if rng.random() < 0.5 else n + rng.choice(["x", " x", "."]))
+    if lines and rng.random() < 0.2:
+        lines.append(rng.choice(lines))                             # a duplicate line
+    for _ in range(rng.choice([0, 0, 0, 1, 2])):
+        lines.append(rng.choice(["", "", " ", "\t", "  \t "]))       # blank lines
+    rng.shuffle(lines)
+    crlf = rng.random() < 0.2
+    deco = rng.random() < 0.4
+    out = []
+    for ln in lines:
+        if deco and ln.strip(WS):
+            ln = rng.choice(["", "", " ", "\t", "   "]) + ln + rng.choice(["", "", " ", "\t", " \t"])
+        out.append(ln + ("\r\n" if crlf or rng.random() < 0.05 else "\n"))
+    text = "".join(out)
+    if text and rng.random() < 0.3:
+        text = text[:-2] if text.endswith("\r\n") else text[:-1]    # no final newline
+    return text
 
 
 # ---------------- building real suites ----------------
@@ -60,40 +133,154 @@ def _classes():
         pass
 
     class T(testtools.TestCase):
-        def __init__(self, i):
+        """a test case with a free-form id (as testscenarios / parameterised tests produce)"""
+        def __init__(self, i, log=None):
             super().__init__("test_x")
             self._i = i
+            self._log = log
 
         def id(self):
             return self._i
 
         def test_x(self):
-            pass
+            if self._log is not None:
+                self._log(self._i)
 
-    return {(False, False): Custom, (True, False): SortS, (False, True): FiltS, (True, True): SortFiltS}, T
+    class P(testtools.PlaceHolder):
+        def __init__(self, i, log=None):
+            super().__init__(i)
+            self._log = log
+
+        def run(self, result=None):
+            if self._log is not None:
+                self._log(self.id())
+            return super().run(result)
+
+    return {(False, False): Custom, (True, False): SortS, (False, True): FiltS, (True, True): SortFiltS,
+            "P": P}, T
 
 
-def build(tree, classes, T):
-    import testtools
+def build(tree, classes, T, names, log=None):
     k = tree[0]
     if k == "C":
         i = tree[1]
-        return testtools.PlaceHolder(name(i)) if i % 2 == 0 else T(name(i))
+        return classes["P"](names[i], log) if i % 2 == 0 else T(names[i], log)
     if k == "P":
-        return unittest.TestSuite([build(c, classes, T) for c in tree[1]])
-    return classes[(tree[1], tree[2])]([build(c, classes, T) for c in tree[3]])
+        return unittest.TestSuite([build(c, classes, T, names, log) for c in tree[1]])
+    return classes[(tree[1], tree[2])]([build(c, classes, T, names, log) for c in tree[3]])
 
 
-def walk(x, pre=()):
+UNKNOWN = 999     # an id that is not in the case's table of names
+
+
+def number(names, s):
+    return names.index(s) if s in names else UNKNOWN
+
+
+def walk(x, names, pre=()):
     """(path, id) of every leaf, by position; the harness's own traversal."""
     try:
         it = iter(x)
     except TypeError:
-        return [(list(pre), int(x.id()[1:]))]
+        return [(list(pre), number(names, x.id()))]
     out = []
     for k, c in enumerate(it):
-        out += walk(c, pre + (k,))
+        out += walk(c, names, pre + (k,))
     return out
+
+
+# ---------------- the command line: testtools.run --list / --load-list ----------------
+def cli_suite(case, log):
+    """what the generated module's test_suite() returns (the loader insists on a TestSuite/TestCase)"""
+    classes, T = _classes()
+    t = build(case["tree"], classes, T, case["names"], log)
+    return unittest.TestSuite([t]) if case["tree"][0] == "C" else t
+
+
+def _lines(text):
+    ls = text.split("\n")
+    assert ls[-1] == "", "output does not end with a newline: %r" % text[-40:]
+    return ls[:-1]
+
+
+def cli_inproc(case):
+    from testtools import run
+    names = case["names"]
+    ran = []
+    mod = types.ModuleType("vc19mod")
+    mod.test_suite = lambda: cli_suite(case, ran.append)
+    sys.modules["vc19mod"] = mod
+    fd, path = tempfile.mkstemp(prefix="c19list")
+    try:
+        with os.fdopen(fd, "wb") as f:
+            f.write(case["file"].encode("utf-8"))
+        res = []
+        for args in (["--list"], ["--load-list", path], ["--list", "--load-list", path]):
+            out = io.StringIO()
+            del ran[:]
+            try:
+                run.main(["prog"] + args + ["vc19mod.test_suite"], out)
+                rc = 0
+            except SystemExit as e:
+                rc = int(e.code or 0)
+            if rc != 0:
+                raise RuntimeError("testtools.run %s exits with %r: %s" % (args[:-1], rc, out.getvalue()[-200:]))
+            res.append((out.getvalue(), list(ran)))
+    finally:
+        os.unlink(path)
+        sys.modules.pop("vc19mod", None)
+    assert res[0][1] == [] and res[2][1] == [], "--list executed tests"
+    return {"cli_list": [number(names, s) for s in _lines(res[0][0])],
+            "cli_run": [number(names, s) for s in res[1][1]],
+            "cli_both": [number(names, s) for s in _lines(res[2][0])]}
+
+
+SUBMODULE = '''# generated by vcheck.props.c19
+import json, os
+from vcheck.props import c19
+CASE = json.loads(%r)
+def _log(i):
+    with open(os.environ["VCHECK_LOG"], "ab") as f:
+        f.write(i.encode("utf-8") + b"\\n")
+def test_suite():
+    return c19.cli_suite(CASE, _log if os.environ.get("VCHECK_LOG") else None)
+'''
+
+
+def cli_subprocess(case):
+    names = case["names"]
+    repo = os.environ.get("VERIF_REPO", "/repo")
+    harness = os.path.dirname(os.path.dirname(os.path.dirname(os.path.abspath(__file__))))
+    d = tempfile.mkdtemp(prefix="c19cli")
+    try:
+        with open(os.path.join(d, "vc19sub.py"), "w", encoding="utf-8") as f:
+            f.write(SUBMODULE % json.dumps({"tree": case["tree"], "names": names}))
+        lst = os.path.join(d, "ids.txt")
+        with open(lst, "wb") as f:
+            f.write(case["file"].encode("utf-8"))
+        log = os.path.join(d, "ran.txt")
+        env = dict(os.environ, PYTHONPATH=os.pathsep.join([repo, d, harness]), PYTHONIOENCODING="utf-8",
+                   PYTHONDONTWRITEBYTECODE="1")
+        env.pop("VCHECK_LOG", None)
+        res = []
+        for args in (["--list"], ["--load-list", lst], ["--list", "--load-list", lst]):
+            e = dict(env)
+            if args[0] != "--list":
+                e["VCHECK_LOG"] = log
+                open(log, "wb").close()
+            p = subprocess.run([sys.executable, "-m", "testtools.run"] + args + ["vc19sub.test_suite"],
+                               capture_output=True, env=e, cwd=d, timeout=120)
+            if p.returncode != 0:
+                raise RuntimeError("python -m testtools.run %s exits with %r: %s"
+                                   % (args[0], p.returncode, p.stderr.decode("utf-8", "replace")[-300:]))
+            res.append(p.stdout.decode("utf-8"))
+        ran = _lines(open(log, "rb").read().decode("utf-8"))
+    finally:
+        import shutil
+        shutil.rmtree(d, ignore_errors=True)
+    return {"cli_list": [number(names, s) for s in _lines(res[0])],
+            "cli_run": [number(names, s) for s in ran],
+            "cli_both": [number(names, s) for s in _lines(res[2])]}
 
 
 def drive(case):
@@ -101,9 +288,17 @@ def drive(case):
     from testtools.run import list_test
     classes, T = _classes()
     tree = case["tree"]
+    names = case["names"]
+    g = globals()
+
+    def build(t, c, T_):
+        return g["build"](t, c, T_, names)
+
+    def walk(x):
+        return g["walk"](x, names)
     o = {}
-    o["iter"] = [int(t.id()[1:]) for t in iterate_tests(build(tree, classes, T))]
-    r = filter_by_ids(build(tree, classes, T), set(name(i) for i in case["keep"]))
+    o["iter"] = [number(names, t.id()) for t in iterate_tests(build(tree, classes, T))]
+    r = filter_by_ids(build(tree, classes, T), set(names[i] for i in case["keep"]))
     o["filter"] = walk(r)
     try:
         r = sorted_tests(build(tree, classes, T), case["unpack"])
@@ -120,7 +315,8 @@ def drive(case):
         o["sorted"] = {"raised": "ValueError"}
     except TypeError:
         o["sorted"] = {"raised": "TypeError"}
-    o["list"] = [int(i[1:]) for i in list_test(build(tree, classes, T))[0]]
+    o["list"] = [number(names, i) for i in list_test(build(tree, classes, T))[0]]
+    o.update(cli_subprocess(case) if case.get("cli") == "sub" else cli_inproc(case))
     return o
 
 
@@ -133,9 +329,14 @@ def t_tree(t):
     return "(Custom %s %s %s)" % (q.boolean(t[1]), q.boolean(t[2]), q.lst([t_tree(c) for c in t[3]]))
 
 
+def t_bytes(text):
+    return q.lst([q.nat(b) for b in text.encode("utf-8")])
+
+
 def term(case, o):
     i = q.record([("tree", t_tree(case["tree"])), ("keep", q.lst([q.nat(k) for k in case["keep"]])),
-                  ("unpack", q.boolean(case["unpack"]))])
+                  ("unpack", q.boolean(case["unpack"])),
+                  ("names", q.lst([t_bytes(n) for n in case["names"]])), ("file", t_bytes(case["file"]))])
     if "ok" in o["sorted"]:
         s = "(Ok %s)" % q.lst([q.pair(q.boolean(m[0]), q.lst([q.nat(x) for x in m[1]])) for m in o["sorted"]["ok"]])
     else:
@@ -143,7 +344,10 @@ def term(case, o):
     ob = q.record([("o_iter", q.lst([q.nat(x) for x in o["iter"]])),
                    ("o_filter", q.lst([q.pair(q.lst([q.nat(p) for p in path]), q.nat(i)) for path, i in o["filter"]])),
                    ("o_sorted", s),
-                   ("o_list", q.lst([q.nat(x) for x in o["list"]]))])
+                   ("o_list", q.lst([q.nat(x) for x in o["list"]])),
+                   ("o_cli_list", q.lst([q.nat(x) for x in o["cli_list"]])),
+                   ("o_cli_run", q.lst([q.nat(x) for x in o["cli_run"]])),
+                   ("o_cli_both", q.lst([q.nat(x) for x in o["cli_both"]]))])
     return q.pair(i, ob)
 
 
@@ -222,7 +426,23 @@ def generate(rng, tier):
         {"tree": ["U", True, False, [["C", 9], ["U", False, False, [["C", 7], ["C", 1]]], ["P", [["C", 3]]]]],
          "keep": [1, 3], "unpack": True},
     ]
+    for c in fixed:
+        c["names"] = list(PLAIN)
+        c["file"] = "".join(PLAIN[k] + "\n" for k in c["keep"])
     cases += fixed
+    # list-file corner cases over an alphabet where ids are tokens / prefixes of each other
+    ab = ["-", "a", "a b", "a b c", "a\tb", "a  b", "a (b)", "a(b)", "b", "b c", "c", "m.t [x y]", "\u00e9 \u00e8"]
+    ab = sorted(ab)
+    flat = ["P", [["C", k] for k in range(1, 13)]]
+    nest = ["P", [["C", 1], ["U", False, False, [["C", 2], ["C", 3]]], ["P", [["C", 4], ["U", True, True, [["C", 9], ["C", 8]]]]],
+                  ["C", 12], ["C", 11]]]
+    files = ["", "\n", "\n\n", "a", "a\n", "a\r\n", " a \n", "\ta\t\r\n", "a b", "a b\n", "a b\nb\n", "b\na b", "a\nb\nc\n",
+             "a b c\n", "a\tb\n", "a  b\n", "a   b\n", "a (b)\n", "a(b)\n", "a (b)\r\na(b)", "\n\na\n\n", " \n\t\nb c\n \n",
+             "b\nb\nb\n", "m.t [x y]\n", "m.t\n[x\ny]\n", "\u00e9 \u00e8\n", "\u00e9\n\u00e8\n", "a\n\n\nc", "a \t \nb", "c\n-\n",
+             "a b\r\na b c\r\nb c\r\n", "a\x0b\n", "\x0cb\n", "a\rb\n", "a\r\r\n", "a,b\n", "zzz\n", "A\n", "a b \n c\n"]
+    for f in files:
+        for t in (flat, nest):
+            cases.append({"tree": t, "keep": [1, 8], "unpack": False, "names": list(ab), "file": f})
     shapes = small_trees()
     perms = [[1, 2, 3, 4, 5, 6], [6, 5, 4, 3, 2, 1], [3, 1, 4, 2, 6, 5], [2, 2, 1, 3, 3, 4], [5, 1, 1, 1, 2, 2]]
     want = 1500 if tier == "quick" else 12000
@@ -236,7 +456,9 @@ def generate(rng, tier):
             t = relabel(s, iter(p + [7, 8, 9] * 3))
             ls = leaves(t)
             keep = sorted(set(x for x in ls if rng.random() < 0.5) | ({0} if rng.random() < 0.3 else set()))
-            cases.append({"tree": t, "keep": keep, "unpack": rng.random() < 0.25})
+            nm = pick_names(rng)
+            cases.append({"tree": t, "keep": keep, "unpack": rng.random() < 0.25, "names": nm,
+                          "file": make_file(rng, nm, ls)})
     n_rand = 1500 if tier == "quick" else 30000
     for _ in range(n_rand):
         pool = list(range(1, 13))
@@ -247,7 +469,16 @@ def generate(rng, tier):
         t = rand_tree(rng, rng.choice([1, 2, 3, 4]), pool)
         ls = leaves(t)
         keep = sorted(set(x for x in ls if rng.random() < 0.5) | ({0} if rng.random() < 0.3 else set()))
-        cases.append({"tree": t, "keep": keep, "unpack": rng.random() < 0.25})
+        nm = pick_names(rng)
+        cases.append({"tree": t, "keep": keep, "unpack": rng.random() < 0.25, "names": nm,
+                      "file": make_file(rng, nm, ls)})
+    # a sample goes through `python -m testtools.run` in a subprocess instead of run.main() in-process
+    n_sub = 20 if tier == "quick" else 200
+    rich = [c for c in cases if len(c["file"]) > 8 and c["names"] != PLAIN and len(leaves(c["tree"])) >= 3]
+    for c in rng.sample(rich, min(n_sub, len(rich))):
+        cases.append(dict(c, cli="sub"))
+    for c in cases:
+        assert all(name_ok(n) for n in c["names"]) and c["names"] == sorted(c["names"]) and len(set(c["names"])) == 13
     return cases
 
 
@@ -277,17 +508,31 @@ def shrink(case):
         for i, c in enumerate(kids):
             for s in subs(c):
                 yield re(kids[:i] + [s] + kids[i + 1:])
+    rest = {k: case[k] for k in ("names", "file", "cli") if k in case}
     for s in subs(t):
-        yield {"tree": s, "keep": [k for k in case["keep"] if k in leaves(s) or k == 0], "unpack": case["unpack"]}
+        yield dict(rest, tree=s, keep=[k for k in case["keep"] if k in leaves(s) or k == 0], unpack=case["unpack"])
     for i in range(len(case["keep"])):
-        yield {"tree": t, "keep": case["keep"][:i] + case["keep"][i + 1:], "unpack": case["unpack"]}
+        yield dict(rest, tree=t, keep=case["keep"][:i] + case["keep"][i + 1:], unpack=case["unpack"])
     if case["unpack"]:
-        yield {"tree": t, "keep": case["keep"], "unpack": False}
+        yield dict(rest, tree=t, keep=case["keep"], unpack=False)
+    # the list file: fewer lines, no decoration
+    f = case["file"]
+    if f:
+        ls = f.split("\n")
+        for i in range(len(ls)):
+            yield dict(case, file="\n".join(ls[:i] + ls[i + 1:]))
+        for g in ("\n".join(x.strip(WS) for x in ls), f.replace("\r", ""), f.rstrip("\n")):
+            if g != f:
+                yield dict(case, file=g)
+    if case.get("cli") == "sub":
+        yield {k: v for k, v in case.items() if k != "cli"}
 
 
 def distribution(cases):
-    d = {"depth": {}, "leaves": {}, "with_duplicates": 0, "with_custom": 0, "with_empty_custom": 0, "unpack_outer": 0}
-    import json
+    d = {"depth": {}, "leaves": {}, "with_duplicates": 0, "with_custom": 0, "with_empty_custom": 0, "unpack_outer": 0,
+         "plain_ids": 0, "ids_with_blank_inside": 0, "non_ascii_ids": 0, "file_empty": 0, "file_crlf": 0,
+         "file_without_final_newline": 0, "file_blank_lines": 0, "file_padded_lines": 0,
+         "file_lists_id_with_blank": 0, "file_line_with_two_ids": 0, "cli_subprocess": 0}
     for c in cases:
         t = c["tree"]
         ls = leaves(t)
@@ -299,63 +544,62 @@ def distribution(cases):
         d["with_custom"] += '"U"' in s
         d["with_empty_custom"] += ', []]' in s and '"U"' in s
         d["unpack_outer"] += c["unpack"]
+        nm, f = c["names"], c["file"]
+        used = [nm[i] for i in set(ls)]
+        d["plain_ids"] += nm == PLAIN
+        d["ids_with_blank_inside"] += any(" " in n or "\t" in n for n in used)
+        d["non_ascii_ids"] += any(not n.isascii() for n in used)
+        d["file_empty"] += not f
+        d["file_crlf"] += "\r\n" in f
+        d["file_without_final_newline"] += bool(f) and not f.endswith("\n")
+        fl = f.split("\n")[:-1] if f.endswith("\n") else f.split("\n")
+        d["file_blank_lines"] += any(not x.strip(WS) for x in fl)
+        d["file_padded_lines"] += any(x.strip(WS) and x.rstrip("\r") != x.strip(WS) for x in fl)
+        d["file_lists_id_with_blank"] += any(x.strip(WS) in used and (" " in x.strip(WS) or "\t" in x.strip(WS)) for x in fl)
+        d["file_line_with_two_ids"] += any(x.strip(WS) not in nm and len(x.split()) > 1 and x.split()[0] in nm for x in fl)
+        d["cli_subprocess"] += c.get("cli") == "sub"
     return d
 
 
 # ---------------- command-line glue samples ----------------
-MODULE = '''
-import os, unittest, testtools
-LOG = os.environ.get("VCHECK_LOG")
-def mk(i):
-    class T(testtools.TestCase):
-        def id(self): return "t%%03d" %% i
-        def test_x(self):
-            if LOG: open(LOG, "a").write("t%%03d\\n" %% i)
-    return T("test_x")
-class Custom(unittest.TestSuite): pass
-def build(t):
-    if t[0] == "C": return mk(t[1])
-    if t[0] == "P": return unittest.TestSuite([build(c) for c in t[1]])
-    return Custom([build(c) for c in t[3]])
-TREE = %r
-def test_suite(): return build(TREE)
-'''
-
-
 def extra_checks(tier, rng):
-    n = 4 if tier == "quick" else 40
+    """round trip through the shell: the output of `python -m testtools.run --list` saved to a file and given to
+    `--load-list` must run every test, whatever the ids look like (ids are distinct here)"""
+    n = 3 if tier == "quick" else 30
     out = []
     repo = os.environ.get("VERIF_REPO", "/repo")
-    root = os.path.dirname(os.path.dirname(os.path.dirname(os.path.dirname(os.path.abspath(__file__)))))
+    harness = os.path.dirname(os.path.dirname(os.path.dirname(os.path.abspath(__file__))))
     for k in range(n):
         pool = list(range(1, 13))
         rng.shuffle(pool)
         t = ["P", [rand_tree(rng, 3, pool) for _ in range(rng.randint(1, 3))]]
-        # no custom sort/filter flags here: Custom is a plain subclass in the generated module
         ls = leaves(t)
         if len(set(ls)) != len(ls):
             continue
-        keep = [x for x in ls if rng.random() < 0.5]
-        d = tempfile.mkdtemp(prefix="c19cli", dir=os.path.join(root, ".work"))
+        names = pick_names(rng)
+        d = tempfile.mkdtemp(prefix="c19rt")
         try:
-            with open(os.path.join(d, "vc19mod.py"), "w") as f:
-                f.write(MODULE % (t,))
-            env = dict(os.environ, PYTHONPATH=repo + os.pathsep + d)
-            p = subprocess.run([sys.executable, "-m", "testtools.run", "--list", "vc19mod.test_suite"],
-                               capture_output=True, text=True, env=env, cwd=d, timeout=120)
-            listed = p.stdout.split()
-            ok1 = listed == [name(i) for i in ls] and p.returncode == 0
+            with open(os.path.join(d, "vc19sub.py"), "w", encoding="utf-8") as f:
+                f.write(SUBMODULE % json.dumps({"tree": t, "names": names}))
+            env = dict(os.environ, PYTHONPATH=os.pathsep.join([repo, d, harness]), PYTHONIOENCODING="utf-8",
+                       PYTHONDONTWRITEBYTECODE="1")
+            env.pop("VCHECK_LOG", None)
+            p = subprocess.run([sys.executable, "-m", "testtools.run", "--list", "vc19sub.test_suite"],
+                               capture_output=True, env=env, cwd=d, timeout=120)
             lst = os.path.join(d, "ids.txt")
-            with open(lst, "w") as f:
-                f.write("".join(name(i) + "\n" for i in sorted(keep)) + "absent\n")
+            with open(lst, "wb") as f:
+                f.write(p.stdout)
             log = os.path.join(d, "ran.txt")
             env["VCHECK_LOG"] = log
-            p2 = subprocess.run([sys.executable, "-m", "testtools.run", "--load-list", lst, "vc19mod.test_suite"],
-                                capture_output=True, text=True, env=env, cwd=d, timeout=120)
-            ran = open(log).read().split() if os.path.exists(log) else []
-            ok2 = sorted(ran) == sorted(name(i) for i in keep) and len(ran) == len(keep) and p2.returncode == 0
-            out.append({"ok": ok1 and ok2, "tree": t, "keep": keep, "listed": listed, "ran": ran,
-                        "rc": [p.returncode, p2.returncode], "stderr": (p.stderr + p2.stderr)[-300:]})
+            p2 = subprocess.run([sys.executable, "-m", "testtools.run", "--load-list", lst, "vc19sub.test_suite"],
+                                capture_output=True, env=env, cwd=d, timeout=120)
+            ran = open(log, "rb").read().decode("utf-8").split("\n")[:-1] if os.path.exists(log) else []
+            want = [names[i] for i in ls]
+            listed = p.stdout.decode("utf-8", "replace").split("\n")[:-1]
+            out.append({"ok": listed == want and ran == want and p.returncode == 0 and p2.returncode == 0,
+                        "tree": t, "names": names, "listed": listed, "ran": ran,
+                        "rc": [p.returncode, p2.returncode],
+                        "stderr": (p.stderr + p2.stderr).decode("utf-8", "replace")[-300:]})
         finally:
             import shutil
             shutil.rmtree(d, ignore_errors=True)
